@@ -86,11 +86,16 @@ def main(argv):
     viol = []
     known_hit = []
     for o in rep.violations():
-        if o["key"] in kkeys:
-            known_hit.append((o, kkeys[o["key"]]))
+        bk = o.get("base_key", o["key"])
+        if bk in kkeys:
+            known_hit.append((o, kkeys[bk]))
         else:
             viol.append(o)
+    printed = set()
     for o, k in known_hit:
+        if k["key"] in printed:
+            continue
+        printed.add(k["key"])
         print("KNOWN-FINDING: property=%s %s" % (prop, k["what"]))
     rc = 0
     for o in viol:
